@@ -7,6 +7,8 @@ import (
 	"fmt"
 	"math"
 	"slices"
+	"strings"
+	"sync"
 	"testing"
 
 	"github.com/AdguardTeam/golibs/container"
@@ -693,6 +695,129 @@ var longSetProp = vp.Register(vp.Prop[SetCase]{
 	Check: checkSet,
 })
 
+// checkReaders: a container that is only read may be read from several
+// goroutines at once (Has, Len, Values, Range, Equal, String / Range,
+// ReverseRange, Current, Len are observers; an observer that writes hidden
+// state is a data race and may answer wrongly).
+func checkSetReaders(c SetCase) error {
+	run := func(obs func() error) error {
+		errs := make([]error, 4)
+		var wg sync.WaitGroup
+		for g := range errs {
+			wg.Add(1)
+			go func() {
+				defer wg.Done()
+				for r := 0; r < 5 && errs[g] == nil; r++ {
+					errs[g] = vp.Guard(obs)
+				}
+			}()
+		}
+		wg.Wait()
+		for _, e := range errs {
+			if e != nil {
+				return fmt.Errorf("container read by 4 goroutines at once: %w", e)
+			}
+		}
+		return nil
+	}
+	build := func(add func(int), del func(int), clr func()) map[int]bool {
+		m := map[int]bool{}
+		for _, v := range c.Initial {
+			add(v)
+			m[v] = true
+		}
+		for _, op := range c.Ops {
+			switch op.Kind {
+			case "add":
+				add(op.Val)
+				m[op.Val] = true
+			case "delete":
+				del(op.Val)
+				delete(m, op.Val)
+			case "clear":
+				clr()
+				clear(m)
+			}
+		}
+		return m
+	}
+	vp.Class("readers")
+	vp.NonTrivialStr("c11.readers", fmt.Sprintf("%+v", c))
+	if strings.HasPrefix(c.Impl, "sorted") {
+		im := sortedImpl("sorted-int", convInt)
+		set := container.NewSortedSliceSet[int]()
+		m := build(func(v int) { set.Add(convInt(v)) }, func(v int) { set.Delete(convInt(v)) }, set.Clear)
+		model := map[int]bool{}
+		for v := range m {
+			model[convInt(v)] = true
+		}
+		other := set.Clone()
+		return run(func() error {
+			if !set.Equal(other) {
+				return fmt.Errorf("a set is not Equal to its clone")
+			}
+			return observe(im, pair[int, *container.SortedSliceSet[int]]{set: set, model: model}, 3, universe)
+		})
+	}
+	im := mapImpl("mapset-string", convString)
+	set := container.NewMapSet[string]()
+	m := build(func(v int) { set.Add(convString(v)) }, func(v int) { set.Delete(convString(v)) }, set.Clear)
+	model := map[string]bool{}
+	for v := range m {
+		model[convString(v)] = true
+	}
+	other := set.Clone()
+	return run(func() error {
+		if !set.Equal(other) {
+			return fmt.Errorf("a set is not Equal to its clone")
+		}
+		return observe(im, pair[string, *container.MapSet[string]]{set: set, model: model}, 3, universe)
+	})
+}
+
+func checkRingReaders(c RingCase) error {
+	rb := container.NewRingBuffer[int](c.Cap)
+	var pushes []int
+	for _, op := range c.Ops {
+		if op.Kind == "push" {
+			rb.Push(op.Val)
+			pushes = append(pushes, op.Val)
+		} else {
+			rb.Clear()
+			pushes = nil
+		}
+	}
+	errs := make([]error, 4)
+	var wg sync.WaitGroup
+	for g := range errs {
+		wg.Add(1)
+		go func() {
+			defer wg.Done()
+			for r := 0; r < 5 && errs[g] == nil; r++ {
+				errs[g] = vp.Guard(func() error {
+					if got, want := observeRing(rb, g), expectRing(c.Cap, pushes, g); got != want {
+						return fmt.Errorf("capacity %d, ring read by 4 goroutines at once shows\n  %s\nmodel says\n  %s", c.Cap, got, want)
+					}
+					return nil
+				})
+			}
+		}()
+	}
+	wg.Wait()
+	vp.Class("ring-readers")
+	for _, e := range errs {
+		if e != nil {
+			return e
+		}
+	}
+	return nil
+}
+
+var (
+	setReadersProp  = vp.Register(vp.Prop[SetCase]{Kind: "c11.readers", Base: 300, Gen: setProp.Gen, Check: checkSetReaders})
+	ringReadersProp = vp.Register(vp.Prop[RingCase]{Kind: "c11.ring-readers", Base: 300, Gen: ringProp.Gen, Check: checkRingReaders})
+)
+
 // TestConcurrent (variant "conc", -race): the sequential oracle from 8
 // goroutines at once, each on its own objects; objects of one type must not
 // share mutable state.
@@ -700,6 +825,8 @@ func TestConcurrent(t *testing.T) {
 	if vp.Variant() != "conc" {
 		t.Skip("runs in the conc variant (-race)")
 	}
+	vp.Run(t, setReadersProp)
+	vp.Run(t, ringReadersProp)
 	vp.RunConcurrent(t, setProp, 200, 32, 8)
 	vp.RunConcurrent(t, ringProp, 200, 32, 8)
 }
